@@ -211,6 +211,7 @@ class Env(object):
         self.short_reads = 0       # budget of injected short reads (environment answer)
         self.short_writes = 0      # budget of injected short writes (environment answer)
         self.short_writes_done = 0
+        self.write_cap = {}        # fd -> most bytes one write() hands over
         self.log = []              # trace of (virtual time, event)
         self.points = 0
         self.core_dumps = False
@@ -598,6 +599,8 @@ class OsProxy(object):
         env = ENV
         if env is not None:
             env.sched('write')
+        if env is not None and fd in env.write_cap:
+            data = bytes(data)[:env.write_cap[fd]]       # a peer whose input queue takes only so much per write
         if env is not None and env.short_writes > 0 and len(data) > 1:
             # environment answer: the kernel took only part of the payload (a signal handler ran in the middle)
             if env.ch.choose(2, 'short-write'):
